@@ -964,6 +964,10 @@ def pattern_reg8(context, tree):
 @arm_isa.pattern("reg", "U8TOI32(reg)", size=0)
 @arm_isa.pattern("reg", "I8TOU32(reg)", size=0)
 @arm_isa.pattern("reg", "U8TOU32(reg)", size=0)
+@arm_isa.pattern("reg", "I8TOI16(reg)", size=0)
+@arm_isa.pattern("reg", "U8TOI16(reg)", size=0)
+@arm_isa.pattern("reg", "I8TOU16(reg)", size=0)
+@arm_isa.pattern("reg", "U8TOU16(reg)", size=0)
 def pattern_i8toi32(self, tree, c0):
     # TODO: do something?
     # Sign extend for example?
@@ -974,6 +978,10 @@ def pattern_i8toi32(self, tree, c0):
 @arm_isa.pattern("reg", "U32TOU8(reg)", size=0)
 @arm_isa.pattern("reg", "I32TOI8(reg)", size=0)
 @arm_isa.pattern("reg", "I32TOU8(reg)", size=0)
+@arm_isa.pattern("reg", "U16TOI8(reg)", size=0)
+@arm_isa.pattern("reg", "U16TOU8(reg)", size=0)
+@arm_isa.pattern("reg", "I16TOI8(reg)", size=0)
+@arm_isa.pattern("reg", "I16TOU8(reg)", size=0)
 def pattern_i32toi8(context, tree, c0):
     d2 = context.new_reg(ArmRegister)
     context.emit(AndImm(d2, c0, 0xFF))
